@@ -370,6 +370,10 @@ func genShutCase(rt *rapid.T) shutCase {
 		for i := 0; i < n; i++ {
 			c.Workers = append(c.Workers, pick(rt, closeRaceWorkerKinds, "worker"))
 		}
+		if chance(rt, 35, "viewmix") {
+			// design-document calls, view queries and writers together through one handle
+			c.Workers = append([]string{"view", "view", "kv"}, c.Workers[:len(c.Workers)-2]...)
+		}
 		c.After = rapid.IntRange(0, 100).Draw(rt, "rounds")
 		c.Seed = int64(rapid.IntRange(1, 1<<30).Draw(rt, "seed"))
 		return c
@@ -379,6 +383,10 @@ func genShutCase(rt *rapid.T) shutCase {
 		n := rapid.IntRange(2, 6).Draw(rt, "nworkers")
 		for i := 0; i < n; i++ {
 			c.Workers = append(c.Workers, pick(rt, stormWorkerKinds, "worker"))
+		}
+		if chance(rt, 25, "viewmix") {
+			c.Workers = append([]string{"view", "view", "kv"}, c.Workers[:len(c.Workers)-2]...)
+			c.Handles = 1
 		}
 		c.After = rapid.IntRange(0, 120).Draw(rt, "after")
 		c.Seed = int64(rapid.IntRange(1, 1<<30).Draw(rt, "seed"))
